@@ -374,6 +374,13 @@ fn main() {
     // second family: pure-ASCII texts in which a character is nevertheless two bytes / two code
     // points -- CR LF is one grapheme cluster (units follow the first family's)
     all.extend(strings(&CRLF_ALPHA, max_len + 1).into_iter().filter(|s| s.contains('\r') || s.contains('\n')));
+    // third family: long texts (lengths around the powers of two a size threshold would sit at) of
+    // repeated symbols of mixed widths
+    for n in tu_verif::enumerate::threshold_lengths(run.pick(6, 8)) {
+        for pat in [&["a"][..], &["a", "ä", "😀"][..], &["e\u{301}", "a", "\r", "\n"][..]] {
+            all.push(tu_verif::enumerate::repeat_symbols(pat, n));
+        }
+    }
     let grid = format!("max {MAXES:?} x context {CONTEXTS:?} x {{char, byte}} windows, the full window, possible_{{character,byte}}_substrings with max {MAXES:?}; all x use_graphemes");
     if let Some(n) = run.describe_unit() {
         println!("{}", json!({"s": all[n as usize], "grid": grid}));
@@ -411,6 +418,17 @@ fn main() {
                 for ctx in [0, 1, usize::MAX / 2, usize::MAX / 2 + 1, usize::MAX] {
                     check_windows(&mut run, &t, Kind::Char, max, ctx);
                     check_windows(&mut run, &t, Kind::Byte, max, ctx);
+                }
+            }
+            // long texts: window sizes around powers of two as well
+            if t.n > 12 {
+                for max in tu_verif::enumerate::threshold_lengths(8) {
+                    check_substrings(&mut run, &t, Kind::Char, max);
+                    check_substrings(&mut run, &t, Kind::Byte, max);
+                    for ctx in [0, 1, max / 4, (max - 1) / 2, max / 2] {
+                        check_windows(&mut run, &t, Kind::Char, max, ctx);
+                        check_windows(&mut run, &t, Kind::Byte, max, ctx);
+                    }
                 }
             }
             for max in MAXES {
